@@ -62,6 +62,10 @@ func genC12(g *G, n int, out io.Writer) {
 				c.Validations[k].Rule = inner
 			}
 			c.Validations[k].Level = []string{"violation", "warning", "info"}[g.n(3)]
+			if g.coin(0.3) {
+				// the message key in its unusual legal forms: absent, null, a number, a boolean, a list - the documented default text applies
+				c.Validations[k].RawMessage = g.pick([]string{"<absent>", "<null>", "~", "null", "404", "true", "[a, b]", "{a: b}", "1.5"})
+			}
 		}
 		// links heavy graph so that nested paths reach nodes
 		c.Graph = g.graph(3+g.n(5), 0.7)
